@@ -22,12 +22,13 @@ Proof.
 Qed.
 Print Assumptions C10src_totp.
 
-Theorem C10src_ocra : forall fuel junk jm secret code cfg i, runs fuel junk secret -> small_input i ->
-  returns (Src.GenerateOCRA fuel jm secret cfg i) /\ returns (Src.ValidateOCRA fuel jm secret code cfg i).
+Theorem C10src_ocra : forall fuel junk jm secret code i, runs fuel junk secret -> small_input i ->
+  (forall suite, returns (Src.GenerateOCRA fuel jm secret suite i) /\ returns (Src.ValidateOCRA fuel jm secret code suite i)).
 Proof.
-  intros fuel junk jm secret code cfg i (Hf & Hfs & Hs & Hj) Hi.
-  rewrite src_GenerateOCRA_eq, src_ValidateOCRA_eq by (assumption || lia).
-  destruct (C10_ocra secret code cfg i) as (H1 & H2 & _). split; [apply lift_oc_returns|apply lift_v_returns]; assumption.
+  intros fuel junk jm secret code i (Hf & Hfs & Hs & Hj) Hi [cfg'|].
+  - rewrite src_GenerateOCRA_eq, src_ValidateOCRA_eq by (assumption || lia).
+    destruct (C10_ocra secret code cfg' i) as (H1 & H2 & _). split; [apply lift_oc_returns|apply lift_v_returns]; assumption.
+  - destruct (src_nil_suite fuel jm secret code i Hfs Hs) as ([e1 H1] & [e2 H2] & _). rewrite H1, H2. split; eexists; reflexivity.
 Qed.
 Print Assumptions C10src_ocra.
 
